@@ -280,6 +280,9 @@ def evidence(ctx, pa, cases, res, meta, tb_extra):
         "samples": samples[:6],
         "exhaustive": False,
         "input_distribution": {"streams": dist, "generator": meta.get("distribution", {})},
+        # a call that missed the watchdog limit but returned within 10x the limit (starved machine): not a verdict
+        "load_induced_timeouts": (meta.get("distribution", {}).get("watchdog") or {}).get("load_induced_timeouts", 0),
+        "confirmed_timeouts": (meta.get("distribution", {}).get("watchdog") or {}).get("confirmed_timeouts", 0),
         "hypotheses_validated": meta.get("hypotheses", {}),
         "vm_compute_cases": evals,
         "explanation": "Level.Allows is checked exhaustively (levels incl. an invalid one x 7 Diff values); all other streams "
